@@ -143,9 +143,9 @@ Theorem C15_key_order_neutral_prioritised : forall e s0 sts s0' sts',
   Forall MergePrio.NewZ (s0 :: sts) -> Forall MergePrio.NewZ (s0' :: sts') ->
   forallb is_dictk (s0 :: sts) = true -> forallb is_dictk (s0' :: sts') = true ->
   Forall2 PrioOrder.peqvp (map MergePrio.perase (s0 :: sts)) (map MergePrio.perase (s0' :: sts')) ->
-  UpdateP.hcompat (MergePrio.perase s0) (map MergePrio.perase sts) -> UpdateP.hcompat (MergePrio.perase s0') (map MergePrio.perase sts') ->
+  UpdateP.hcompat (MergePrio.perase s0) (map MergePrio.perase sts) ->
   exists n m, flatten e (s0 :: sts) = Ok n /\ flatten e (s0' :: sts') = Ok m /\ PrioOrder.peqvp (MergePrio.perase n) (MergePrio.perase m).
-Proof. exact PrioOrder.key_order_neutral_prio. Qed.
+Proof. exact PrioOrder.key_order_neutral_prio1. Qed.
 Print Assumptions C15_key_order_neutral_prioritised.
 
 Theorem C15_permutation_is_peqvp : forall p kv kv', NoDup (map fst kv) -> Permutation.Permutation kv kv' ->
